@@ -3,7 +3,7 @@ btokPwdTransition; the property's clauses run as safety monitors in product with
 a stateful Hypothesis walk re-validates random long histories step by step against the extracted graph."""
 import json, os, time, hashlib
 from collections import deque
-from harness import Ctx, Fail, Crash, VERIF, st, given, settings, hseed, HealthCheck, Phase
+from harness import Ctx, Fail, Crash, VERIF, OUT, st, given, settings, hseed, HealthCheck, Phase
 
 PIN = ["puk0", "puk1", "puk2", "puk3", "puk4", "puk5", "puk6", "puk7", "puk8", "puk9", "pin0", "pin1", "pind", "pins", "pin2", "pin3"]
 AUTH = ["auth_none", "auth_pin", "auth_can", "auth_puk"]
@@ -202,13 +202,13 @@ def main(tier, seed, only=None):
           "assumptions": ["the transition function is a pure function of (pin, auth, event): validated on %d random histories executed step by step" % ws["n"],
                           "clauses are those of the property text plus comments 2-4 of btok.h; comment 5 (CAN status at the moment of the last attempt) is not demanded because the property states the weaker 'a correct CAN between the second and the last attempt'"],
           "wall_s": round(time.time() - t0, 2), "violations": len(best)}
-    os.makedirs(os.path.join(VERIF, "evidence"), exist_ok=True)
-    json.dump(ev, open(os.path.join(VERIF, "evidence", "C20.json"), "w"), indent=1)
+    os.makedirs(os.path.join(OUT, "evidence"), exist_ok=True)
+    json.dump(ev, open(os.path.join(OUT, "evidence", "C20.json"), "w"), indent=1)
     print("C20 tier=%s states=%d transitions=%d histories=%d violations=%d" % (tier, nstates, ntrans, ws["n"], len(best)))
-    os.makedirs(os.path.join(VERIF, "replay"), exist_ok=True)
+    os.makedirs(os.path.join(OUT, "replay"), exist_ok=True)
     for rule, d in best.items():
         h = hashlib.sha256(json.dumps([rule, d], sort_keys=True).encode()).hexdigest()[:10]
-        path = os.path.join(VERIF, "replay", "C20-%s.json" % h)
+        path = os.path.join(OUT, "replay", "C20-%s.json" % h)
         json.dump({"property": "C20", "test": "automaton", "rule": rule, "case": d}, open(path, "w"), indent=1)
         print("  failing: %s :: %s" % (rule, json.dumps(d)))
         print("VIOLATION property=C20 replay=%s" % path)
